@@ -53,7 +53,11 @@ def main(seed, tier):
             if b is not None and a != b:
                 raise HarnessError("item %d gives different results when re-run serially: the simulation is not deterministic" % it["id"])
             xcheck += 1
-    new, known = runner.triage("C06", seed, violations, c06.minimise, lambda p: c06.replay(p)[0])
+    rk_runs, rk_viol = c06.real_kernel_crosscheck()
+    for v in rk_viol:
+        v.update({"mode": "real-kernel", "item": None, "plan": []})
+    violations.extend(rk_viol)
+    new, known = runner.triage("C06", seed, violations, c06.minimise_any, lambda p: c06.replay(p)[0])
     stuck = [p for p in ("multi_chunk_script", "single_chunk_script", "warning_then_script", "dest_preexisting", "rejected_grammar",
                          "stdin_input", "stdout_dest", "final_flush_fault_hit") if not probes.get(p)]
     coverage = {
@@ -78,6 +82,7 @@ def main(seed, tier):
         "logical_steps_simulated": agg["steps"],
         "probes": probes,
         "probes_stuck_at_zero": stuck,
+        "real_kernel_crosscheck_runs": rk_runs,
         "determinism_selfcheck": {"items": ndet, "executions_each": 2, "mismatches": 0, "items_rerun_serially_vs_pool": xcheck},
         "runs_per_hour": int(agg["runs"] / max(t.s(), 0.001) * 3600),
         "runs_via_forkserver": agg["forkserver_runs"],
